@@ -288,6 +288,29 @@ def run_T(desc, ctx):
                               % (h, agg, tx), case)
         else:
             ctx.count("T_obs_fcst_symmetry", 0)
+        # NetCDF files may store their dimension entries in any order (C02): the window must be chosen by value
+        if fmt == "nc" and F == 1 and "obs" in inp0["has"]:
+            sh = dict(inp0)
+            order = {"time": list(range(len(inp0["times"]))), "leadtime": list(range(len(inp0["leadtimes"]))),
+                     "location": list(range(len(inp0["locs"])))}
+            key = "leadtime" if tx == "leadtime" else "time"
+            order[key] = order[key][::-1]
+            st0 = dict(inp0["style"])
+            st0["order"] = order
+            sh["style"] = st0
+            sh["name"] = "perm.nc"
+            p2 = gen.write_input(sh, d, None)
+            cmd = ["-m", "mae", "-x", "leadtime", "-type", "csv", "-T", str(h), "-Tagg", agg, "-Tx", tx]
+            o1 = runner.run_cli([paths[0]] + cmd)
+            o2 = runner.run_cli([p2] + cmd)
+            ctx.count("T_permuted_nc")
+            r1 = runner.parse_csv(o1.stdout)[1]
+            r2 = runner.parse_csv(o2.stdout)[1]
+            if o1.status != o2.status or [r[1:] for r in r1] != [r[1:] for r in r2]:
+                if len(order[key]) > 1:
+                    ctx.violation("T-window-chosen-by-stored-position|%s" % tx,
+                                  "-T %d -Tagg %s -Tx %s: a NetCDF file whose %s entries are stored in descending order gives different "
+                                  "scores than the same data stored ascending:\n%s\nvs\n%s" % (h, agg, tx, key, r1, r2), case)
         # ensemble members and probabilities/quantiles derived from the ensemble
         if ens and all(i["members"] == ds["inputs"][0]["members"] for i in ds["inputs"]):
             k = 0
